@@ -56,12 +56,21 @@ const (
 
 type timeline struct {
 	ID     int    `json:"id"`
-	Family string `json:"family"`              // seeder | leecher | mixed
+	Family string `json:"family"`              // seeder | slow-serve | leecher | mixed | revived
 	MS     int    `json:"seeder_S_tti_ticks"`  // 0 = never
 	ML     int    `json:"leecher_L_tti_ticks"` // 0 = never
 	MLS    int    `json:"seeder_L_tti_ticks"`
 	Pieces int    `json:"pieces"`
-	Steps  string `json:"steps"` // t = one tick, p = release one piece write on L, r = RemoveTorrent on L
+	// t = one tick, p = release one piece write on L, r = RemoveTorrent on L,
+	// s = let S finish the piece transfer it has open (slow-serve family only).
+	Steps string `json:"steps"`
+	// revived family: L's first scheduler generation receives Gen1 pieces and is
+	// stopped; after Between ticks a second generation starts on the same store,
+	// a remote leecher connects to it (the control is created for the incoming
+	// conn), optionally a local Download joins, then the clock runs.
+	Gen1    int  `json:"gen1_pieces,omitempty"`
+	Between int  `json:"between_ticks,omitempty"`
+	Join    bool `json:"local_download_joins,omitempty"`
 }
 
 func (tl *timeline) key() string { return ev.JSON(tl) }
@@ -76,19 +85,48 @@ func tti(m int) time.Duration {
 func genTimeline(r *rand.Rand, id int) *timeline {
 	tl := &timeline{ID: id, Pieces: 3 + r.Intn(6), MLS: 2 + r.Intn(4)}
 	var m int
-	switch x := r.Intn(10); {
-	case x < 4:
+	switch x := r.Intn(20); {
+	case x < 6:
 		tl.Family, tl.MS = "seeder", 2+r.Intn(5)
 		m = tl.MS
-	case x < 7:
+	case x < 10:
+		// Transfers take virtual time: S opens the piece, the clock runs, then S
+		// finishes (closes the reader). The idle clock must start at the end.
+		tl.Family, tl.MS = "slow-serve", 2+r.Intn(5)
+		m = tl.MS
+		var sb strings.Builder
+		ticks := 0
+		for k := 0; k < tl.Pieces && ticks < maxTicks-24; k++ {
+			a := 1 + r.Intn(m) // open -> close
+			b := r.Intn(m + 1) // close -> next open
+			if r.Intn(3) == 0 {
+				b = m + 1 - a // the first tick at open+limit, still inside close+limit
+				if b < 0 {
+					b = 0
+				}
+			}
+			sb.WriteString(strings.Repeat("t", a) + "s" + strings.Repeat("t", b) + "p")
+			ticks += a + b
+		}
+		sb.WriteString(strings.Repeat("t", 8))
+		tl.Steps = sb.String()
+		return tl
+	case x < 14:
 		tl.Family, tl.ML = "leecher", 2+r.Intn(5)
 		m = tl.ML
-	default:
+	case x < 18:
 		tl.Family, tl.MS, tl.ML = "mixed", 2+r.Intn(5), 2+r.Intn(5)
 		m = tl.MS
 		if r.Intn(2) == 0 {
 			m = tl.ML
 		}
+	default:
+		tl.Family, tl.ML = "revived", 2+r.Intn(4)
+		tl.Gen1 = 1 + r.Intn(tl.Pieces-1)
+		tl.Between = r.Intn(3)
+		tl.Join = r.Intn(2) == 0
+		tl.Steps = strings.Repeat("t", tl.ML+3)
+		return tl
 	}
 	gap := func() int {
 		switch x := r.Intn(12); {
@@ -148,11 +186,14 @@ type caseRun struct {
 	dir  string
 	blob *rig.Blob
 
-	clk     *clock.Mock
-	vnow    atomic.Int64 // virtual time in ticks (whole intervals)
-	S, L    *side
-	wgate   *rig.Gate
-	tracker *rig.Tracker
+	clk      *clock.Mock
+	vnow     atomic.Int64 // virtual time in ticks (whole intervals)
+	S, L     *side
+	wgate    *rig.Gate
+	tracker  *rig.Tracker
+	lHooks   *rig.ArchiveHooks
+	sID, lID core.PeerID
+	extra    []*rig.Peer // further peers to close (earlier generation, remote leecher)
 
 	mu           sync.Mutex
 	served       int   // piece readers closed on S
@@ -161,6 +202,7 @@ type caseRun struct {
 	writeErrs    int
 	lastReceived int64
 	closeErrs    []string
+	lastOpened   int64 // tick at which S last started a piece transfer
 	servedGID    int64 // goroutine (conn write loop of S) which closed the last piece reader
 	writeGID     int64 // goroutine (dispatcher feed of L) which wrote the last piece
 
@@ -168,6 +210,7 @@ type caseRun struct {
 	dlErr    error
 	inconcl  string
 	violated bool
+	drops    int // in-progress drops judged
 	trace    []string
 }
 
@@ -196,7 +239,20 @@ func (cr *caseRun) setup(tracker *rig.Tracker) error {
 	cr.lastServed, cr.lastReceived = -1, -1
 	r := cr.run.Rand("peers-" + cr.id)
 
-	sHooks := &rig.ArchiveHooks{OnPieceReaderClose: func(d core.Digest, piece int, err error) {
+	slow := tl.Family == "slow-serve"
+	if slow {
+		cr.wgate.Hold("serve")
+	}
+	cr.lastOpened = -1
+	sHooks := &rig.ArchiveHooks{}
+	sHooks.BeforePieceRead = func(d core.Digest, piece int) {
+		cr.mu.Lock()
+		cr.lastOpened = cr.vnow.Load()
+		cr.mu.Unlock()
+		cr.wgate.Enter("serve")
+		cr.wgate.Exit("serve", true)
+	}
+	sHooks.OnPieceReaderClose = func(d core.Digest, piece int, err error) {
 		cr.mu.Lock()
 		cr.served++
 		cr.lastServed = cr.vnow.Load()
@@ -210,7 +266,7 @@ func (cr *caseRun) setup(tracker *rig.Tracker) error {
 		}
 		cr.wgate.MarkApplied("served")
 		cr.run.Count("pieces_served", 1)
-	}}
+	}
 	lHooks := &rig.ArchiveHooks{
 		BeforeWritePiece: func(d core.Digest, piece int) { cr.wgate.Enter("write") },
 		AfterWritePiece: func(d core.Digest, piece int, err error) {
@@ -229,23 +285,13 @@ func (cr *caseRun) setup(tracker *rig.Tracker) error {
 			cr.wgate.Exit("write", err == nil)
 		},
 	}
-	mk := func(name string, c scheduler.Config, h *rig.ArchiveHooks) (*side, error) {
-		g := rig.NewGate()
-		p, err := rig.NewPeer(rig.PeerOptions{
-			Config: c, Clock: cr.clk, Tracker: tracker, Dir: rig.MkDir(cr.dir, name), PeerID: rig.RandomPeerID(r),
-			WrapArchive: func(a storage.TorrentArchive) storage.TorrentArchive { return rig.NewArchiveWrapper(a, h) },
-			Hooks:       g.Hooks(),
-		})
-		if err != nil {
-			return nil, err
-		}
-		return &side{name: name, peer: p, gate: g}, nil
-	}
+	cr.lHooks = lHooks
+	cr.sID, cr.lID = rig.RandomPeerID(r), rig.RandomPeerID(r)
 	var err error
-	if cr.S, err = mk("S", cfg(tti(tl.MS), forever), sHooks); err != nil {
+	if cr.S, err = cr.mkSide("S", cfg(tti(tl.MS), forever), sHooks, cr.sID, tracker); err != nil {
 		return err
 	}
-	if cr.L, err = mk("L", cfg(tti(tl.MLS), tti(tl.ML)), lHooks); err != nil {
+	if cr.L, err = cr.mkSide("L", cfg(tti(tl.MLS), tti(tl.ML)), lHooks, cr.lID, tracker); err != nil {
 		cr.S.peer.Close()
 		return err
 	}
@@ -257,14 +303,34 @@ func (cr *caseRun) setup(tracker *rig.Tracker) error {
 	return nil
 }
 
+// mkSide starts a scheduler on the directory <case dir>/<name> (re-using what a
+// previous generation left there).
+func (cr *caseRun) mkSide(name string, c scheduler.Config, h *rig.ArchiveHooks, id core.PeerID, tracker *rig.Tracker) (*side, error) {
+	g := rig.NewGate()
+	p, err := rig.NewPeer(rig.PeerOptions{
+		Config: c, Clock: cr.clk, Tracker: tracker, Dir: rig.MkDir(cr.dir, name), PeerID: id,
+		WrapArchive: func(a storage.TorrentArchive) storage.TorrentArchive { return rig.NewArchiveWrapper(a, h) },
+		Hooks:       g.Hooks(),
+	})
+	if err != nil {
+		return nil, err
+	}
+	return &side{name: name, peer: p, gate: g}, nil
+}
+
 func (cr *caseRun) teardown() {
 	defer func() {
 		cr.tracker.Forget(cr.S.peer.Pctx.PeerID)
 		cr.tracker.Forget(cr.L.peer.Pctx.PeerID)
 	}()
-	cr.wgate.ReleaseAll()
+	// Schedulers first: a piece write still parked at the gate belongs to a
+	// torrent instance that must not touch a live generation's files.
 	cr.S.peer.Close()
 	cr.L.peer.Close()
+	for _, p := range cr.extra {
+		p.Close()
+	}
+	cr.wgate.ReleaseAll()
 	os.RemoveAll(cr.dir)
 }
 
@@ -290,15 +356,32 @@ func (cr *caseRun) counts() (served, received, writeErrs int) {
 	return cr.served, cr.received, cr.writeErrs
 }
 
-// waitFlow waits until L holds a parked piece write again and S has finished
-// serving it (reader closed), i.e. the swarm is quiescent at this instant.
-func (cr *caseRun) waitFlow(wantServed int) bool {
-	if !cr.wgate.Wait(watchdog, func(count func(string) rig.Counters) bool {
-		return count("write").Parked >= 1 && count("served").Applied >= wantServed
-	}) {
-		return false
+// waitNext waits until the next piece has reached its next controlled point:
+// in the slow-serve family (open=true) S has started the transfer and holds the
+// piece reader open at the serve gate; otherwise S has finished serving it
+// (reader closed, wantServed reached) and L's write of it is parked. arrived is
+// false when the flow is broken for good (mayBreak: a conn existed before and
+// now neither side has one any more).
+func (cr *caseRun) waitNext(open bool, wantServed int, mayBreak bool) (arrived, ok bool) {
+	deadline := time.Now().Add(watchdog)
+	for {
+		hit := cr.wgate.Wait(20*time.Millisecond, func(count func(string) rig.Counters) bool {
+			if open {
+				return count("serve").Parked >= 1
+			}
+			return count("write").Parked >= 1 && count("served").Applied >= wantServed
+		})
+		if hit {
+			return true, open || cr.settleServe()
+		}
+		if sS, sL := cr.probe(cr.S), cr.probe(cr.L); mayBreak && sS.conns == 0 && sL.conns == 0 {
+			return false, true
+		}
+		if time.Now().After(deadline) {
+			cr.fail("watchdog: next piece did not arrive")
+			return false, false
+		}
 	}
-	return cr.settleServe()
 }
 
 // The harness observes a serve / a write from inside kraken's access watcher,
@@ -379,6 +462,12 @@ func (cr *caseRun) violation(sig string, extra map[string]interface{}) {
 	cr.run.Violation(sig, cr.tl.key(), w)
 }
 
+func (cr *caseRun) lastOpenedTick() int64 {
+	cr.mu.Lock()
+	defer cr.mu.Unlock()
+	return cr.lastOpened
+}
+
 func ticksOf(t time.Time) int64 { return int64(t.Sub(time.Unix(0, 0)) / tickP) }
 
 // judge evaluates one side after a tick (or after RemoveTorrent when manual).
@@ -418,11 +507,15 @@ func (cr *caseRun) judge(s *side, pre, post snap, manual bool) {
 			cause := "never-served"
 			if last > created {
 				cause = "served-pieces-ignored"
+				if lr := ticksOf(pre.st.LastRead); lr > created && lr < last {
+					// kraken did record reads, but an earlier instant than the end of the last transfer
+					cause = "last-read-earlier-than-end-of-last-transfer"
+				}
 			}
 			cr.violation("completed-torrent-dropped-before-seeder-idle-limit/"+cause, map[string]interface{}{
 				"side": s.name, "created_tick": created, "last_piece_served_tick": last, "seeder_tti_ticks": float64(limit) + 0.5,
-				"kraken_last_read_tick": ticksOf(pre.st.LastRead),
-				"what":                  "the control of a completed torrent disappeared at a preemption tick although a piece was served less than SeederTTI ago",
+				"kraken_last_read_tick": ticksOf(pre.st.LastRead), "last_transfer_started_tick": cr.lastOpenedTick(),
+				"what": "the control of a completed torrent disappeared at a preemption tick although a piece was served less than SeederTTI ago",
 			})
 		}
 		if st := s.peer.Stat(cr.blob, true); !st.InCache || st.Mismatch {
@@ -452,6 +545,7 @@ func (cr *caseRun) judge(s *side, pre, post snap, manual bool) {
 		return
 	}
 	cr.run.Count("drops_inprogress_"+s.name, 1)
+	cr.drops++
 	cr.trace = append(cr.trace, fmt.Sprintf("t=%d %s dropped in-progress torrent (created=%d lastReceived=%d limit=%d.5 manual=%v)", now, s.name, created, lastReceived, limit, manual))
 	if !manual && !idle {
 		cause := "never-received"
@@ -492,6 +586,9 @@ func (cr *caseRun) tick(preS, preL snap) (postS, postL snap, ok bool) {
 	// tick; wait for both ends so that the flow state is settled.
 	postS, postL = cr.probe(cr.S), cr.probe(cr.L)
 	if (!preS.st.Present && preS.conns > 0) || (!preL.st.Present && preL.conns > 0) || (!postL.st.Present && preL.st.Present && !preL.st.Complete) {
+		// A conn whose write loop is parked at the serve gate cannot finish
+		// closing; the transfer it holds belongs to a control that is gone.
+		cr.wgate.Release("serve")
 		if postS, postL, ok = cr.waitNoConns(); !ok {
 			return postS, postL, false
 		}
@@ -526,7 +623,8 @@ func (cr *caseRun) execute(tracker *rig.Tracker) {
 
 	cr.dlDone = make(chan struct{})
 	go func() { cr.dlErr = cr.L.peer.Sched.Download(rig.Namespace, d); close(cr.dlDone) }()
-	if !cr.waitFlow(1) {
+	slow := cr.tl.Family == "slow-serve"
+	if arrived, ok := cr.waitNext(slow, 1, false); !ok || !arrived {
 		cr.fail("watchdog: first piece did not arrive")
 		return
 	}
@@ -583,11 +681,15 @@ func (cr *caseRun) execute(tracker *rig.Tracker) {
 			preS, preL = cr.probe(cr.S), cr.probe(cr.L)
 			more := received2 > received && received2 < cr.tl.Pieces
 			if more && preS.st.Present && preL.st.Present && preS.conns > 0 && preL.conns > 0 {
-				if !cr.waitFlow(served + 1) {
-					cr.fail("watchdog: next piece did not arrive")
+				arrived, ok := cr.waitNext(slow, served+1, true)
+				if !ok {
 					return
 				}
-				cr.trace = append(cr.trace, fmt.Sprintf("t=%d S served the next piece", cr.vnow.Load()))
+				if arrived && slow {
+					cr.trace = append(cr.trace, fmt.Sprintf("t=%d S started the next piece transfer", cr.vnow.Load()))
+				} else if arrived {
+					cr.trace = append(cr.trace, fmt.Sprintf("t=%d S served the next piece", cr.vnow.Load()))
+				}
 			}
 			if received2 == cr.tl.Pieces {
 				// L completed: wait for its completion event so that the probe is settled.
@@ -602,6 +704,26 @@ func (cr *caseRun) execute(tracker *rig.Tracker) {
 				}
 			}
 			outcome.WriteString("p ")
+
+		case 's':
+			if cr.wgate.Count("serve").Parked == 0 {
+				continue
+			}
+			served, _, _ := cr.counts()
+			cr.wgate.ReleaseOne("serve")
+			if !cr.wgate.Wait(watchdog, func(count func(string) rig.Counters) bool { return count("served").Applied > served }) {
+				cr.fail("watchdog: released piece transfer did not finish")
+				return
+			}
+			if !cr.settleServe() {
+				return
+			}
+			cr.trace = append(cr.trace, fmt.Sprintf("t=%d S finished the piece transfer started at t=%d", cr.vnow.Load(), cr.lastOpenedTick()))
+			if _, ok := cr.waitNext(false, served+1, true); !ok {
+				return
+			}
+			preS, preL = cr.probe(cr.S), cr.probe(cr.L)
+			outcome.WriteString("s ")
 
 		case 'r':
 			if !preL.st.Present || preL.st.Complete {
@@ -634,6 +756,137 @@ func (cr *caseRun) execute(tracker *rig.Tracker) {
 	cr.run.Distinct("outcome_sequences", outcome.String())
 }
 
+// executeRevived: generation 1 of L leaves a partial download behind; in
+// generation 2 the control is created for an incoming conn of a remote leecher.
+func (cr *caseRun) executeRevived(tracker *rig.Tracker) {
+	tl := cr.tl
+	if err := cr.setup(tracker); err != nil {
+		cr.fail("setup: " + err.Error())
+		return
+	}
+	defer cr.teardown()
+	d, h := cr.blob.Digest, cr.blob.InfoHash()
+
+	gen1 := make(chan error, 1)
+	go func() { gen1 <- cr.L.peer.Sched.Download(rig.Namespace, d) }()
+	if arrived, ok := cr.waitNext(false, 1, false); !ok || !arrived {
+		cr.fail("watchdog: first piece did not arrive")
+		return
+	}
+	for k := 0; k < tl.Gen1; k++ {
+		served, received, werrs := cr.counts()
+		cr.wgate.ReleaseOne("write")
+		if !cr.wgate.Wait(watchdog, func(count func(string) rig.Counters) bool { return count("write").Sent > received+werrs }) {
+			cr.fail("watchdog: released piece write did not finish")
+			return
+		}
+		if !cr.settleWrite() {
+			return
+		}
+		if arrived, ok := cr.waitNext(false, served+1, false); !ok || !arrived {
+			cr.fail("watchdog: next piece did not arrive in generation 1")
+			return
+		}
+	}
+	// Generation 1 ends; Stop leaves the partial file in the download store.
+	old := cr.L
+	old.peer.Close()
+	select {
+	case <-gen1:
+	case <-time.After(watchdog):
+		cr.fail("watchdog: generation 1 Download did not return after Stop")
+		return
+	}
+	cr.tracker.Forget(cr.lID)
+	if st := old.peer.Stat(cr.blob, false); !st.InDownload {
+		cr.fail("generation 1 left no partial file")
+		return
+	}
+	cr.trace = append(cr.trace, fmt.Sprintf("t=%d generation 1 of L stopped with %d/%d pieces on disk", cr.vnow.Load(), tl.Gen1, tl.Pieces))
+	for i := 0; i < tl.Between; i++ {
+		b := cr.S.gate.Count(rig.EvTick).Applied
+		cr.vnow.Add(1)
+		cr.clk.Add(tickP)
+		if !cr.S.gate.Wait(watchdog, func(count func(string) rig.Counters) bool { return count(rig.EvTick).Applied > b }) {
+			cr.fail("watchdog: preemption tick not applied on S")
+			return
+		}
+	}
+
+	// Generation 2 on the same store and identity.
+	cr.mu.Lock()
+	cr.lastReceived, cr.writeGID = -1, 0
+	cr.mu.Unlock()
+	l2, err := cr.mkSide("L", cfg(tti(tl.MLS), tti(tl.ML)), cr.lHooks, cr.lID, tracker)
+	if err != nil {
+		cr.fail("setup generation 2: " + err.Error())
+		return
+	}
+	cr.extra = append(cr.extra, old.peer) // already closed; Close is idempotent
+	cr.L = l2
+
+	// A remote leecher whose tracker only knows L connects to it.
+	tB := rig.NewTracker()
+	tB.AddBlob(cr.blob)
+	tB.Register(h, core.PeerInfoFromContext(l2.peer.Pctx, false))
+	B, err := rig.NewPeer(rig.PeerOptions{
+		Config: cfg(forever, forever), Clock: cr.clk, Tracker: tB, Dir: rig.MkDir(cr.dir, "B"),
+		PeerID: rig.RandomPeerID(cr.run.Rand("peerB-" + cr.id)),
+	})
+	if err != nil {
+		cr.fail("setup remote leecher: " + err.Error())
+		return
+	}
+	cr.extra = append(cr.extra, B)
+	go func() { _ = B.Sched.Download(rig.Namespace, d) }()
+	if !l2.gate.Wait(watchdog, func(count func(string) rig.Counters) bool { return count("incomingConnEvent").Applied >= 1 }) {
+		cr.fail("watchdog: the remote leecher did not connect")
+		return
+	}
+	cr.trace = append(cr.trace, fmt.Sprintf("t=%d generation 2 of L opened the torrent for an incoming conn", cr.vnow.Load()))
+	if tl.Join {
+		cr.dlDone = make(chan struct{})
+		go func() { cr.dlErr = l2.peer.Sched.Download(rig.Namespace, d); close(cr.dlDone) }()
+		if !l2.gate.Wait(watchdog, func(count func(string) rig.Counters) bool { return count(rig.EvNewTorrent).Applied >= 1 }) {
+			cr.fail("watchdog: local download request not applied")
+			return
+		}
+		cr.trace = append(cr.trace, fmt.Sprintf("t=%d a local Download joined", cr.vnow.Load()))
+	}
+	preS, preL := cr.probe(cr.S), cr.probe(cr.L)
+	if !preL.st.Present || preL.st.Complete {
+		cr.fail(fmt.Sprintf("generation 2 has no in-progress control (present=%v complete=%v)", preL.st.Present, preL.st.Complete))
+		return
+	}
+	cr.run.Count("controls_created_by_incoming_conn_on_partial_download", 1)
+	for range tl.Steps {
+		if cr.inconcl != "" || cr.violated {
+			break
+		}
+		if !cr.settleServe() || !cr.settleWrite() {
+			return
+		}
+		postS, postL, ok := cr.tick(preS, preL)
+		if !ok {
+			return
+		}
+		cr.judge(cr.L, preL, postL, false)
+		preS, preL = postS, postL
+	}
+	if cr.inconcl != "" {
+		return
+	}
+	if tl.Join {
+		select {
+		case <-cr.dlDone:
+			cr.run.Count("download_result_"+classify(cr.dlErr), 1)
+		default:
+			cr.run.Count("download_still_pending_at_end", 1)
+		}
+	}
+	cr.run.Distinct("outcome_sequences", fmt.Sprintf("revived gen1=%d join=%v dropped=%v", tl.Gen1, tl.Join, !preL.st.Present))
+}
+
 func classify(err error) string {
 	switch err {
 	case nil:
@@ -652,9 +905,11 @@ func TestC18(t *testing.T) {
 	run := ev.Start(t, "C18", "exploration",
 		"PRNG-generated timelines on a real seeder + real leecher sharing a mock clock: 3-8 pieces, each released to the leecher after a gap of "+
 			"0, 1, m-1, m, m+1 or m+2 preemption intervals (idle limit = m+0.5 intervals, m in 2..6) which also fixes when the seeder serves the next piece; "+
-			"families: seeder idle limit only / leecher idle limit only / both; optional RemoveTorrent of the in-progress download; 8 trailing ticks. "+
-			"A timeline is non-trivial when at least one piece was served or received after virtual time 0 and at least one keep-or-drop decision "+
-			"was observed on a present torrent; distinct = distinct timeline specs.")
+			"families: seeder idle limit only / slow-serve (the seeder holds each piece reader open for 1..m intervals before finishing the transfer) / "+
+			"leecher idle limit only / both / revived (a first leecher generation leaves a partial download, the second generation's control is created "+
+			"by an incoming conn of a remote leecher, optionally joined by a local Download, then idles out); optional RemoveTorrent of the in-progress download; 8 trailing ticks. "+
+			"A timeline is non-trivial when at least one piece was served or received after virtual time 0 (revived: the revived control was dropped and judged) "+
+			"and at least one keep-or-drop decision was observed on a present torrent; distinct = distinct timeline specs.")
 	defer run.Finish()
 	run.Assume("the stub tracker, the mock clock and the archive wrapper (which only observes piece reader closes and delays piece writes) do not change scheduler behaviour")
 	run.Assume("'served a piece' is observed when the conn closes the piece reader after copying it to the socket")
@@ -681,7 +936,11 @@ func TestC18(t *testing.T) {
 				r := run.Rand(fmt.Sprintf("blob-%d", tl.ID))
 				cr := &caseRun{run: run, tl: tl, id: fmt.Sprintf("c%d", tl.ID), blob: rig.NewBlob(r, tl.Pieces, 64, r.Intn(2) == 0)}
 				cr.dir = rig.MkDir(base, cr.id)
-				cr.execute(tracker)
+				if tl.Family == "revived" {
+					cr.executeRevived(tracker)
+				} else {
+					cr.execute(tracker)
+				}
 				if cr.inconcl != "" {
 					run.Inconclusive(fmt.Sprintf("timeline %d: %s; trace=%v", tl.ID, cr.inconcl, cr.trace))
 					run.Case(tl.key(), false)
@@ -690,6 +949,9 @@ func TestC18(t *testing.T) {
 				cr.mu.Lock()
 				active := cr.lastServed > 0 || cr.lastReceived > 0
 				cr.mu.Unlock()
+				if tl.Family == "revived" {
+					active = cr.drops > 0 // the revived control was dropped and its file judged
+				}
 				run.Case(tl.key(), active && cr.vnow.Load() > 0)
 				run.Count("timelines_"+tl.Family, 1)
 				if tl.ID%23 == 0 {
